@@ -19,4 +19,6 @@ EXTRAS = [
     lambda rep, fb, tier: records.rule_regular_length(rep, fb),
     lambda rep, fb, tier: __import__("vf.rules.methodrules", fromlist=["x"]).rule_index_content(rep, fb),
     lambda rep, fb, tier: __import__("vf.rules.lints", fromlist=["x"]).rule_shape_subscript(rep, fb),
+    lambda rep, fb, tier: __import__("vf.rules.lints", fromlist=["x"]).rule_rebuilt_simplified(rep, fb),
+    lambda rep, fb, tier: __import__("vf.rules.lints", fromlist=["x"]).rule_zero_field_depths(rep, fb),
 ]
